@@ -379,4 +379,22 @@ theorem not_int_format_partial_prefix_full : ¬ int_format_partial_prefix_full :
   rw [h2] at this
   cases this
 
+/-! ## two further defects the model predicts and the implementation confirms (not in known_findings.json at the
+time of writing; formats of `fmtcat_intfmt.py`, ops in the engineer's report) -/
+
+def fmtSepFractionOnly : Format := ⟨0xa0a0a000000005f000000020000000c⟩   -- separator `_`, fraction-internal flag only
+def fmtSuffixHNoLZ : Format := ⟨0xa0a0a6800000000000000000000100c⟩       -- base suffix `h` + no_integer_leading_zeros
+
+/-- a digit-separator byte used by the fraction / exponent only: the integer iterator is contiguous, so `next()` never
+counts, but its `current_count()` is the per-buffer digit count of the non-contiguous `Bytes` (0): `into_ok!` sees
+`count == 0` and EVERY integer is rejected as `Empty` (`"123"` → `Empty(3)`); the grammar derives 123 -/
+theorem witness_sep_elsewhere_rejects_all :
+    complete ⟨featsRF, fmtSepFractionOnly, false⟩ ⟨32, true⟩ false [0x31, 0x32, 0x33] = .error (.err "Empty" 3) ∧
+    grammarIntComplete featsRF fmtSepFractionOnly ⟨32, true⟩ [0x31, 0x32, 0x33] = .ok 123 := by decide
+
+/-- base suffix with `no_integer_leading_zeros` (no prefix): `"0h"` → `InvalidDigit(1)`; the grammar derives 0 -/
+theorem witness_suffix_nolz_zero :
+    complete ⟨featsRF, fmtSuffixHNoLZ, false⟩ ⟨32, true⟩ false [0x30, 0x68] = .error (.err "InvalidDigit" 1) ∧
+    grammarIntComplete featsRF fmtSuffixHNoLZ ⟨32, true⟩ [0x30, 0x68] = .ok 0 := by decide
+
 end LexVerif.Props.C04Format
